@@ -100,6 +100,7 @@ func runC16(c *Ctx) {
 	c16NullSafe(c, d)
 	nullDefinition(c, "C16.null-definition")
 	c16Normalise(c, d)
+	c16NilUnified(c, d, "C16.members-nil-unified")
 	c16AssertOrigin(c)
 	// Go integers and floats read from the data become numbers with exactly their value (shared with C04)
 	if barms, und := c.binaryDispatch(); und == "" {
@@ -1097,4 +1098,79 @@ func pinNilTestOfConsumer(kind int64, isNil bool) Pin {
 		}
 		return constant.MakeBool(res), true
 	}
+}
+
+// nilUnifier: a module function `f(x) any` that yields nil when IsNull(x) and x itself otherwise.
+func (c *Ctx) nilUnifier(f *ssa.Function) bool {
+	if f == nil || !c.inModule(f) || len(f.Blocks) == 0 || len(f.Params) != 1 || f.Signature.Results().Len() != 1 {
+		return false
+	}
+	isNull := c.fn("IsNull")
+	if isNull == nil || len(callsTo(f, isNull)) == 0 {
+		return false
+	}
+	rt := c.foldWith(f, 0, pinCallFn(isNull, constant.MakeBool(true), nil))
+	rf := c.foldWith(f, 0, pinCallFn(isNull, constant.MakeBool(false), nil))
+	if len(rt.Returns) == 0 || len(rf.Returns) == 0 {
+		return false
+	}
+	for _, ret := range rt.Returns {
+		if !isNilConst(ret.Results[0]) {
+			return false
+		}
+	}
+	for _, ret := range rf.Returns {
+		if !c.derivedOnlyFromParam(ret.Results[0], f.Params[0]) {
+			return false
+		}
+	}
+	return true
+}
+
+// c16NilUnified: whatever a member access yields has gone through the nil unifier (a typed nil pointer found in a map
+// entry or in a struct field is the formula's null, so that `!x.f`, `x.f ?? d`, `x.f ? a : b` treat it as null): every
+// successful return of the selector handler is nil, the unifier's result, or the result of the member reader all of
+// whose own successful returns are.
+func c16NilUnified(c *Ctx, d *Dispatcher, rule string) {
+	h := d.Handlers["SelectorExpression"]
+	if h == nil {
+		return
+	}
+	var check func(f *ssa.Function, idx int, depth int) (bool, string)
+	check = func(f *ssa.Function, idx int, depth int) (bool, string) {
+		if depth > 3 {
+			return false, "too deep"
+		}
+		ok, why := true, ""
+		n := 0
+		instrs(f, func(b *ssa.BasicBlock, i int, in ssa.Instruction) {
+			ret, isR := in.(*ssa.Return)
+			if !isR || idx >= len(ret.Results) {
+				return
+			}
+			if last := ret.Results[len(ret.Results)-1]; len(ret.Results) > 1 && isErrorType(last.Type()) && !isNilConst(last) && isNilConst(ret.Results[idx]) {
+				return // an error return
+			}
+			n++
+			for _, rt := range plainOrigins.Roots(ret.Results[idx]) {
+				switch {
+				case rt.Kind == "const" && isNilConst(rt.V):
+				case rt.Kind == "call" && rt.Fn != nil && c.nilUnifier(rt.Fn):
+				case rt.Kind == "call" && rt.Fn != nil && c.inModule(rt.Fn) && rt.Fn != d.Fn && len(rt.Path) == 0:
+					if sub, w := check(rt.Fn, rt.Idx, depth+1); !sub {
+						ok, why = false, w
+					}
+				default:
+					ok = false
+					why = fmt.Sprintf("%s returns %s at %s without passing it through the nil unifier", c.P.FuncKey(f), rt.String(), c.P.InstrPos(ret))
+				}
+			}
+		})
+		if n == 0 {
+			return false, c.P.FuncKey(f) + " has no successful return"
+		}
+		return ok, why
+	}
+	ok, why := check(h, 0, 0)
+	c.R.Check(rule, "selector-results", c.P.Pos(h.Pos()), ok, "a member that holds a typed nil pointer must read as null on every path (map entry and struct field alike): "+why)
 }
